@@ -237,7 +237,7 @@ pub fn run(args: &Args, rec: &mut Recorder) {
     rec.rule = "evaluation = one loaded document sorted with sort(): every list must hold the same elements with equal content (by name lookup and PartialEq), singletons unchanged, lists ascending by name with a coherent name index; the written text must list the module-level elements grouped by kind and ascending by name; load(write(sorted)) must equal the sorted model including list order; sorting twice must give the same text. distinct_nontrivial = distinct input texts by content hash".into();
     rec.assumptions.push("names are duplicate-free per list (generator); module-level comments are dropped by sort() by design and are not judged".into());
     let g = Grammar::load_default();
-    let total: u64 = if args.thorough { 300_000 } else { 12_000 };
+    let total: u64 = if args.thorough { 300_000 } else { 40_000 };
     run_cases(args, rec, total, crate::util::reset_budget, |rng, case, rec| {
         let mut cfg = crate::c01::gen_cfg_wide(rng, args.thorough);
         cfg.max_modules = 3;
